@@ -35,6 +35,24 @@ def __ite__(cond, new, old):
     return new if cond else old
 
 
+def __not__(x):
+    if is_sym(x):
+        return SBool(z3.Not(zb(x)))
+    if isinstance(x, SArr) and x.o.size == 1:
+        return __not__(x.o.flat[0])
+    return not x
+
+
+class _NotRewriter(ast.NodeTransformer):
+    """`not e` -> `__not__(e)` inside a merged condition (plain `not` would call bool() and fork)"""
+
+    def visit_UnaryOp(self, node):
+        self.generic_visit(node)
+        if isinstance(node.op, ast.Not):
+            return ast.copy_location(ast.Call(func=ast.Name(id="__not__", ctx=ast.Load()), args=[node.operand], keywords=[]), node)
+        return node
+
+
 class _Rewriter(ast.NodeTransformer):
     def __init__(self):
         self.count = 0
@@ -48,9 +66,27 @@ class _Rewriter(ast.NodeTransformer):
             return node
         tgt = st.targets[0]
         load = ast.Subscript(value=tgt.value, slice=tgt.slice, ctx=ast.Load())
-        call = ast.Call(func=ast.Name(id="__ite__", ctx=ast.Load()), args=[node.test, st.value, load], keywords=[])
+        test = _NotRewriter().visit(node.test)
         self.count += 1
-        return ast.copy_location(ast.Assign(targets=[tgt], value=call), node)
+        tmp = f"__mc{self.count}"
+        # __mcN = <cond>
+        # if __is_sym__(__mcN): target = __ite__(__mcN, value, target)      (symbolic condition: merged store)
+        # elif __mcN:           target = value                              (concrete condition: the original statement)
+        assign_c = ast.Assign(targets=[ast.Name(id=tmp, ctx=ast.Store())], value=test)
+        merged_store = ast.Assign(targets=[tgt], value=ast.Call(func=ast.Name(id="__ite__", ctx=ast.Load()),
+                                                               args=[ast.Name(id=tmp, ctx=ast.Load()), st.value, load], keywords=[]))
+        import copy as _copy
+
+        plain = ast.If(test=ast.Name(id=tmp, ctx=ast.Load()), body=[_copy.deepcopy(st)], orelse=[])
+        outer = ast.If(test=ast.Call(func=ast.Name(id="__is_sym__", ctx=ast.Load()), args=[ast.Name(id=tmp, ctx=ast.Load())], keywords=[]),
+                       body=[merged_store], orelse=[plain])
+        return [ast.copy_location(assign_c, node), ast.copy_location(outer, node)]
+
+
+def __is_sym__(x):
+    if isinstance(x, SArr) and x.o.size == 1:
+        x = x.o.flat[0]
+    return is_sym(x)
 
 
 def merged(func):
@@ -70,6 +106,8 @@ def merged(func):
     # run in the function's real globals (so later rebinding of `np` etc. is seen) with __ite__ added
     g = f.__globals__
     g.setdefault("__ite__", __ite__)
+    g.setdefault("__not__", __not__)
+    g.setdefault("__is_sym__", __is_sym__)
     loc: dict = {}
     exec(code, g, loc)
     new = loc[fd.name]
